@@ -53,7 +53,9 @@ def histories(draw):
         elif kind == "backward":
             steps.append({"k": "backward", "n": draw(st.integers(0, 30)), "ctx": draw(st.integers(0, 3)) == 0,
                           "g": [draw(st.integers(-8, 8)) / 4.0 for _ in range(4)],
-                          "newest": draw(st.booleans())})
+                          "newest": draw(st.booleans()),
+                          # the seed may be the live .grad handle of some tensor that currently holds a gradient
+                          "gsrc": draw(st.one_of(st.none(), st.none(), st.integers(0, 30)))})
         elif kind == "retain":
             steps.append({"k": "retain", "n": draw(st.integers(0, 30))})
         elif kind == "zero_tensor":
@@ -137,16 +139,23 @@ def sg_build(nd, tens):
     b = tens[nd["b"]]
 
     def unbind_():
-        parts = sg.unbind(sg.stack([a, b], 0), 0)
+        lst = [a, b]
+        parts = sg.unbind(sg.stack(lst, 0), 0)
+        lst.clear()                          # the caller re-uses its list: the recorded graph must not follow it
         return parts[0] * 2.0 + parts[1]
 
     def concat_():
         if a.ndim == 0:
             return sg.concat([a.unsqueeze(0), b.unsqueeze(0)], 0)[0]
-        return sg.concat([a, b], 0)[:a.shape[0]]
+        lst = [a, b]
+        out = sg.concat(lst, 0)[:a.shape[0]]
+        lst[:] = [b, a]
+        return out
 
     def stackidx_():
-        st_ = sg.stack([a, b], -1)          # (..., 2)
+        lst = [a, b]
+        st_ = sg.stack(lst, -1)          # (..., 2)
+        lst.pop()
         return st_[..., 1] * 3.0 - st_[..., 0]
 
     return {"add": lambda: a + b, "mul": lambda: a * b, "sub": lambda: a - b, "addsum": lambda: a.sum() + b,
@@ -262,6 +271,16 @@ def check_history(c, rec):
                 continue
             t = tens[n]
             g = gen.cyc(st_["g"], t.shape, np.float64)
+            seed_t = None
+            if st_.get("gsrc") is not None:
+                src = tens[st_["gsrc"] % len(tens)]
+                if src.requires_grad and src.has_grad() and tuple(src.shape) == tuple(t.shape):
+                    with np.errstate(all="ignore"):
+                        handle = src.grad
+                    if np.all(np.isfinite(handle.data)):
+                        seed_t = handle                      # not a copy: whatever the library hands out
+                        g = np.array(handle.data, dtype=np.float64)
+                        tags.add("seed_is_a_live_grad_handle")
             memo.clear()
             rset = reach(nodes, n, rq, memo)
             # contributions by finite differences of the NumPy re-evaluation
@@ -270,11 +289,12 @@ def check_history(c, rec):
             before = [(leaves[i].data.tobytes(), None if leaves[i].grad is None else leaves[i].grad.data.tobytes())
                       for i in range(3)]
             try:
+                seed_arg = seed_t if seed_t is not None else Tensor(g.copy())
                 if st_["ctx"]:
                     with sg.retain_grads():
-                        t.backward(Tensor(g.copy()))
+                        t.backward(seed_arg)
                 else:
-                    t.backward(Tensor(g.copy()))
+                    t.backward(seed_arg)
             except Exception as e:  # noqa: BLE001
                 raise Violation("backward_raised", f"step {si}: backward on node {n} raised {type(e).__name__}: {e}; "
                                                    f"history={c['steps'][:si + 1]}")
@@ -393,9 +413,9 @@ def history_machine(run_case):
             self._add({"k": "build", "op": op, "a": a, "b": b, "ctx": ctx})
             self.nodes += 1
 
-        @rule(n=IDX, newest=st.booleans(), ctx=st.booleans(), g=G)
-        def backward(self, n, newest, ctx, g):
-            self._add({"k": "backward", "n": n, "ctx": ctx, "g": g, "newest": newest})
+        @rule(n=IDX, newest=st.booleans(), ctx=st.booleans(), g=G, gsrc=st.one_of(st.none(), IDX))
+        def backward(self, n, newest, ctx, g, gsrc):
+            self._add({"k": "backward", "n": n, "ctx": ctx, "g": g, "newest": newest, "gsrc": gsrc})
 
         @precondition(lambda self: self.nodes > 3)
         @rule(n=IDX)
